@@ -440,6 +440,11 @@ class Normaliser:
             self._new_names = new
         return self._new_names
 
+    def _baseline_names_set(self) -> set[str]:
+        if self._baseline_names is None:
+            self._baseline_names = {q.rsplit('.', 1)[-1] for qs in self.baseline.values() for q in qs}
+        return self._baseline_names
+
     def new_class_names(self) -> set[str]:
         if self._new_classes is None:
             import re as _re
@@ -465,6 +470,17 @@ class Normaliser:
                 return True
             if isinstance(n, ast.If) and isinstance(n.test, ast.Constant):
                 return True
+            if isinstance(n, ast.Call) and isinstance(n.func, ast.Attribute) and n.func.attr == 'extend' and len(n.args) == 1 \
+                    and isinstance(n.args[0], ast.Call) and isinstance(n.args[0].func, ast.Attribute) \
+                    and n.args[0].func.attr not in self._baseline_names:
+                return True         # xs.extend(self.new_generator(..))
+            if isinstance(n, ast.Call) and isinstance(n.func, ast.Attribute) and isinstance(n.func.value, ast.Call) \
+                    and isinstance(n.func.value.func, ast.Name) and n.func.value.func.id.lstrip('_')[:1].isupper() \
+                    and self.baseline and n.func.value.func.id in self.new_class_names():
+                return True         # Helper(a).run(b) with a class the rules were not written against
+            if isinstance(n, ast.Attribute) and n.attr.isupper() and isinstance(n.value, ast.Name) \
+                    and n.value.id in ('self', 'cls', 'clz') and isinstance(getattr(n, '_parent', None), (ast.BinOp, ast.Compare, ast.AugAssign)):
+                return True         # a class-level value constant in arithmetic (self.ONE_DAY)
             if isinstance(n, ast.Assign) and isinstance(n.targets[0], (ast.Tuple, ast.List)) \
                     and isinstance(n.value, (ast.GeneratorExp, ast.ListComp)):
                 return True
@@ -550,6 +566,7 @@ class Normaliser:
         self._cur_mod = mod
         for _ in range(12):
             c1 = self._match_to_if(fn)
+            c1 = self._name_chained_ctor_receiver(fn, mod) or c1
             c2 = self._ifexp_to_if(fn)
             c2 = self._format_to_fstring(fn) or c2
             c3 = self._inline_calls(fn, rel, mod, cls, stack, depth) if depth < MAX_DEPTH else False
@@ -570,17 +587,20 @@ class Normaliser:
             c5 = self._thread_boolean_temp(fn) or c5
             c5 = self._thread_optional_result(fn) or c5
             c5 = self._thread_result_or_error(fn, mod) or c5
+            c5 = self._thread_constant_test(fn) or c5
             c5 = self._forward_ctor_fields(fn, mod) or c5
             c5 = self._sink_splat_user(fn) or c5
-            c5 = self._inline_module_value_constants(fn, mod) or c5
+            c5 = self._inline_module_value_constants(fn, mod, cls) or c5
             c5 = self._fold_constant_ifs(fn) or c5
             c5 = self._loops_over_genexp(fn) or c5
             c5 = self._forward_adjacent_copies(fn) or c5
+            c5 = self._forward_argument_temps(fn) or c5
             c5 = self._collapse_copy_chains(fn) or c5
             c5 = self._propagate_field_copies(fn) or c5
             c5 = self._sink_table_loops(fn, mod, cls) or c5
             c5 = self._sink_rest_after_lookup(fn, mod, cls) or c5
             c5 = self._name_table_callee(fn, mod, cls) or c5
+            c5 = self._hoist_table_lookup_arg(fn, mod, cls) or c5
             for _k in range(8):
                 if not self._split_on_table_lookup(fn, mod, cls):
                     break
@@ -1179,6 +1199,7 @@ class Normaliser:
                         or getattr(st, 'value', None) is None:
                     continue
                 hit = None
+                genexp = None
                 for n in ast.walk(st.value):
                     if isinstance(n, ast.Call) and isinstance(n.func, ast.Attribute) and n.func.attr == 'join' \
                             and isinstance(n.func.value, ast.Constant) and len(n.args) == 1 and not n.keywords \
@@ -1187,6 +1208,17 @@ class Normaliser:
                         if r is not None and self._acceptable_generator(r[0]) and any(
                                 isinstance(y, ast.Yield) for y in ast.walk(r[0])):
                             hit = n
+                            break
+                    # b''.join(f(x) for x in self.gen(a)): the same, with the element expression in the loop
+                    if isinstance(n, ast.Call) and isinstance(n.func, ast.Attribute) and n.func.attr == 'join' \
+                            and isinstance(n.func.value, ast.Constant) and len(n.args) == 1 and not n.keywords \
+                            and isinstance(n.args[0], (ast.GeneratorExp, ast.ListComp)) and len(n.args[0].generators) == 1 \
+                            and not n.args[0].generators[0].ifs and not n.args[0].generators[0].is_async \
+                            and isinstance(n.args[0].generators[0].iter, ast.Call):
+                        r = self._resolve(n.args[0].generators[0].iter, fn, rel, mod, cls)
+                        if r is not None and self._acceptable_generator(r[0]) and any(
+                                isinstance(y, ast.Yield) for y in ast.walk(r[0])):
+                            hit, genexp = n, n.args[0]
                             break
                 if hit is None:
                     continue
@@ -1201,11 +1233,18 @@ class Normaliser:
                 acc, item = f'_j{self._tmp}', f'_j{self._tmp}x'
                 gen_call = hit.args[0]
                 hit.args[0] = ast.Name(id=acc, ctx=ast.Load())
+                if genexp is not None:
+                    target_, gen_call, elt_ = clone(genexp.generators[0].target), genexp.generators[0].iter, genexp.elt
+                    for x_ in ast.walk(target_):
+                        if isinstance(x_, ast.Name):
+                            x_.ctx = ast.Store()
+                else:
+                    target_, elt_ = ast.Name(id=item, ctx=ast.Store()), ast.Name(id=item, ctx=ast.Load())
                 pre = [ast.Assign(targets=[ast.Name(id=acc, ctx=ast.Store())], value=ast.List(elts=[], ctx=ast.Load())),
-                       ast.For(target=ast.Name(id=item, ctx=ast.Store()), iter=gen_call,
+                       ast.For(target=target_, iter=gen_call,
                                body=[ast.Expr(value=ast.Call(func=ast.Attribute(value=ast.Name(id=acc, ctx=ast.Load()),
                                                                                 attr='append', ctx=ast.Load()),
-                                                             args=[ast.Name(id=item, ctx=ast.Load())], keywords=[]))],
+                                                             args=[elt_], keywords=[]))],
                                orelse=[])]
                 for x in pre:
                     ast.copy_location(x, st)
@@ -1540,6 +1579,82 @@ class Normaliser:
                         break
         return changed
 
+    def _name_chained_ctor_receiver(self, fn: ast.AST, mod) -> bool:
+        """`x = Helper(a).run(b)` where Helper is a class of this module that the rules were not written against:
+        the object gets a name first (`_hN = Helper(a); x = _hN.run(b)`) so that constructor and method can be
+        merged into the caller like any `obj = Helper(a)` / `obj.run(b)` pair"""
+        new_classes = {c.name for c in getattr(mod, 'body', []) if isinstance(c, ast.ClassDef)}
+        if self.baseline:
+            new_classes &= set(self.new_class_names())
+        if not new_classes:
+            return False
+        changed = False
+        for blk in list(self._blocks(fn)):
+            i = 0
+            while i < len(blk):
+                st = blk[i]
+                i += 1
+                if not (isinstance(st, (ast.Assign, ast.AnnAssign, ast.Expr, ast.Return)) and getattr(st, 'value', None) is not None):
+                    continue
+                call = st.value
+                if not (isinstance(call, ast.Call) and isinstance(call.func, ast.Attribute) and isinstance(call.func.value, ast.Call)
+                        and isinstance(call.func.value.func, ast.Name) and call.func.value.func.id in new_classes):
+                    continue
+                taken_ = {x.id for x in ast.walk(fn) if isinstance(x, ast.Name)}
+                n = 1
+                while f'_h{n}' in taken_:
+                    n += 1
+                name = f'_h{n}'
+                ctor = call.func.value
+                call.func.value = ast.copy_location(ast.Name(id=name, ctx=ast.Load()), ctor)
+                blk.insert(i - 1, ast.copy_location(ast.Assign(targets=[ast.Name(id=name, ctx=ast.Store())], value=ctor), st))
+                i += 1
+                changed = True
+        return changed
+
+    def _hoist_table_lookup_arg(self, fn: ast.AST, mod, cls) -> bool:
+        """`x = getattr(obj, TABLE.get(key, 'd'))` / `x = f(a, TABLE[key])`: the lookup in a constant table that
+        is an argument of the statement's call - with nothing before it that could have an effect - gets a name
+        first (`_hN = TABLE.get(key, 'd')`), so that it can be split into one branch per table value"""
+        changed = False
+        for blk in list(self._blocks(fn)):
+            i = 0
+            while i < len(blk):
+                st = blk[i]
+                i += 1
+                if not (isinstance(st, (ast.Assign, ast.AnnAssign, ast.Expr, ast.Return)) and getattr(st, 'value', None) is not None):
+                    continue
+                call = st.value
+                if not (isinstance(call, ast.Call) and not any(isinstance(x, (ast.Call, ast.Await)) for x in ast.walk(call.func))
+                        and not call.keywords):
+                    continue
+                hit = None
+                for j, a in enumerate(call.args):
+                    is_get = isinstance(a, ast.Call) and isinstance(a.func, ast.Attribute) and a.func.attr == 'get' \
+                        and 1 <= len(a.args) <= 2 and not a.keywords and self._lookup_table(a.func.value, mod, cls) is not None \
+                        and not any(isinstance(x, (ast.Call, ast.Await, ast.NamedExpr)) for y in a.args for x in ast.walk(y))
+                    is_sub = isinstance(a, ast.Subscript) and not isinstance(a.slice, ast.Slice) \
+                        and self._lookup_table(a.value, mod, cls) is not None \
+                        and not any(isinstance(x, (ast.Call, ast.Await, ast.NamedExpr)) for x in ast.walk(a.slice))
+                    if is_get or is_sub:
+                        hit = j
+                        break
+                    if any(isinstance(x, (ast.Call, ast.Await, ast.NamedExpr, ast.Subscript)) for x in ast.walk(a)):
+                        break
+                if hit is None:
+                    continue
+                taken_ = {x.id for x in ast.walk(fn) if isinstance(x, ast.Name)}
+                n = 1
+                while f'_h{n}' in taken_:
+                    n += 1
+                name = f'_h{n}'
+                look = call.args[hit]
+                call.args[hit] = ast.copy_location(ast.Name(id=name, ctx=ast.Load()), look)
+                blk.insert(i - 1, ast.copy_location(ast.Assign(targets=[ast.Name(id=name, ctx=ast.Store())], value=look), st))
+                i += 1
+                changed = True
+        return changed
+
     def _name_table_callee(self, fn: ast.AST, mod, cls) -> bool:
         """`x = TABLE[key](args)` / `TABLE[key](args)` / `return TABLE[key](args)` over a constant dict:
         the function or class picked from the table gets a name first (`_hN = TABLE[key]`), so that the
@@ -1813,9 +1928,13 @@ class Normaliser:
                         if len(branch) == 1 and isinstance(branch[0], ast.If) and branch is node.orelse:
                             if not collect(branch[0]):
                                 return False
-                        elif len(branch) == 1 and isinstance(branch[0], ast.Assign) and len(branch[0].targets) == 1 \
-                                and isinstance(branch[0].targets[0], ast.Name) and branch[0].targets[0].id == t \
-                                and self._const_table(branch[0].value, mod, cls) is not None:
+                        elif branch and isinstance(branch[-1], ast.Assign) and len(branch[-1].targets) == 1 \
+                                and isinstance(branch[-1].targets[0], ast.Name) and branch[-1].targets[0].id == t \
+                                and (self._const_table(branch[-1].value, mod, cls) is not None
+                                     or isinstance(branch[-1].value, ast.Call)) \
+                                and not any(isinstance(x, ast.Name) and x.id == t for s_ in branch[:-1] for x in ast.walk(s_)):
+                            # the table, or the call that produces what is iterated over (a generator helper chosen
+                            # per branch), is the last thing the branch does: the loop that follows can move in
                             leaves.append(branch)
                         else:
                             return False
@@ -1825,12 +1944,13 @@ class Normaliser:
                 reads = [n for n in ast.walk(fn) if isinstance(n, ast.Name) and n.id == t and isinstance(n.ctx, ast.Load)]
                 if len(reads) != 1:
                     continue
-                if any(isinstance(n, (ast.Break, ast.Return, ast.Yield, ast.YieldFrom)) for n in ast.walk(loop)):
+                only_tables = all(len(b_) == 1 and self._const_table(b_[-1].value, mod, cls) is not None for b_ in leaves)
+                if only_tables and any(isinstance(n, (ast.Break, ast.Return, ast.Yield, ast.YieldFrom)) for n in ast.walk(loop)):
                     continue
                 for branch in leaves:
                     lp = clone(loop)
-                    lp.iter = branch[0].value
-                    branch[:] = [lp]
+                    lp.iter = branch[-1].value
+                    branch[-1] = lp
                 del blk[i + 1]
                 changed = True
                 break
@@ -1847,8 +1967,9 @@ class Normaliser:
                 st = blk[i]
                 i += 1
                 if not (isinstance(st, ast.Assign) and len(st.targets) == 1 and isinstance(st.targets[0], ast.Name)
-                        and '__' in st.targets[0].id and not st.targets[0].id.startswith('__')
-                        and isinstance(st.value, ast.Name)):
+                        and isinstance(st.value, ast.Name)
+                        and (('__' in st.targets[0].id and not st.targets[0].id.startswith('__'))
+                             or ('__' in st.value.id and not st.value.id.startswith('__')))):
                     continue
                 x, y = st.targets[0].id, st.value.id
                 if x == y:
@@ -1899,12 +2020,72 @@ class Normaliser:
                 i += 1
         return changed
 
+    def _forward_argument_temps(self, fn: ast.AST) -> bool:
+        """`rep__helper = video.representations[0]; x['k'] = f(.., rep__helper)`: a name made for a parameter of
+        an inlined helper (`param__helper`), bound to a call-free expression and read exactly once, in the very
+        next simple statement - every time it is bound: the expression is written where the name is read.  (The
+        same helper inlined three times binds the same name three times; no single definition exists.)"""
+        changed = False
+        for _ in range(4):
+            loads: dict[str, int] = {}
+            stores: dict[str, int] = {}
+            for n in ast.walk(fn):
+                if isinstance(n, ast.Name):
+                    d = loads if isinstance(n.ctx, ast.Load) else stores
+                    d[n.id] = d.get(n.id, 0) + 1
+            pairs: dict[str, list] = {}
+            for blk in self._blocks(fn):
+                for i in range(len(blk) - 1):
+                    a, b = blk[i], blk[i + 1]
+                    if isinstance(a, ast.Assign) and len(a.targets) == 1 and isinstance(a.targets[0], ast.Name) \
+                            and '__' in a.targets[0].id and not a.targets[0].id.startswith('__') \
+                            and isinstance(b, (ast.Assign, ast.AnnAssign, ast.Expr, ast.Return, ast.AugAssign)) \
+                            and not any(isinstance(x, (ast.Call, ast.Await, ast.Yield, ast.NamedExpr, ast.Lambda, ast.ListComp,
+                                                       ast.GeneratorExp, ast.DictComp, ast.SetComp)) for x in ast.walk(a.value)):
+                        t = a.targets[0].id
+                        hits = [x for x in ast.walk(b) if isinstance(x, ast.Name) and x.id == t and isinstance(x.ctx, ast.Load)]
+                        written = {x.id for x in ast.walk(b) if isinstance(x, ast.Name) and isinstance(x.ctx, ast.Store)}
+                        read_by_value = {x.id for x in ast.walk(a.value) if isinstance(x, ast.Name)}
+                        if len(hits) == 1 and not (written & (read_by_value | {t})):
+                            pairs.setdefault(t, []).append((blk, a, b, hits[0]))
+            done = False
+            for t, ps in pairs.items():
+                if len(ps) == stores.get(t, 0) == loads.get(t, 0):
+                    for blk, a, b, hit in ps:
+                        class S(ast.NodeTransformer):
+                            def visit_Name(self, node, _hit=hit, _v=a.value):
+                                return ast.copy_location(clone(_v), node) if node is _hit else node
+                        S().visit(b)
+                        blk.remove(a)
+                    done = changed = True
+                    break
+            if not done:
+                break
+        return changed
+
     def _extend_of_generator(self, fn: ast.AST) -> bool:
         """`xs.extend(E for v in IT if C)` (generator expression or list comprehension, one clause) is
-        `for v in IT: if C: xs.append(E)`"""
+        `for v in IT: if C: xs.append(E)`; `xs.extend(self.gen(a))` with a method call is
+        `for _x in self.gen(a): xs.append(_x)` (merged with the generator body when it is one)"""
         changed = False
         for blk in list(self._blocks(fn)):
             for i, st in enumerate(blk):
+                if isinstance(st, ast.Expr) and isinstance(st.value, ast.Call) and isinstance(st.value.func, ast.Attribute) \
+                        and st.value.func.attr == 'extend' and len(st.value.args) == 1 and not st.value.keywords \
+                        and isinstance(st.value.args[0], ast.Call) and isinstance(st.value.args[0].func, ast.Attribute) \
+                        and isinstance(st.value.args[0].func.value, ast.Name) and st.value.args[0].func.value.id in ('self', 'cls', 'clz') \
+                        and self.baseline and st.value.args[0].func.attr not in self._baseline_names_set() \
+                        and not any(isinstance(x, (ast.Call, ast.Await)) for x in ast.walk(st.value.func.value)):
+                    self._tmp = getattr(self, '_tmp', 0) + 1
+                    item = f'_e{self._tmp}'
+                    loop = ast.For(target=ast.Name(id=item, ctx=ast.Store()), iter=st.value.args[0],
+                                   body=[ast.Expr(value=ast.Call(func=ast.Attribute(value=clone(st.value.func.value), attr='append',
+                                                                                    ctx=ast.Load()),
+                                                                 args=[ast.Name(id=item, ctx=ast.Load())], keywords=[]))],
+                                   orelse=[], type_comment=None)
+                    blk[i] = ast.fix_missing_locations(ast.copy_location(loop, st))
+                    changed = True
+                    continue
                 if not (isinstance(st, ast.Expr) and isinstance(st.value, ast.Call) and isinstance(st.value.func, ast.Attribute)
                         and st.value.func.attr == 'extend' and len(st.value.args) == 1 and not st.value.keywords
                         and isinstance(st.value.args[0], (ast.GeneratorExp, ast.ListComp))
@@ -2120,6 +2301,44 @@ class Normaliser:
                     e = part[-1].value
                     cond = ast.UnaryOp(op=ast.Not(), operand=e) if neg else e
                     part[-1] = ast.copy_location(ast.If(test=cond, body=clone(b.body), orelse=clone(b.orelse)), part[-1])
+                del blk[i + 1]
+                changed = True
+                break
+        return changed
+
+    def _thread_constant_test(self, fn: ast.AST) -> bool:
+        """`if c: m = 1 else: m = m + 1` directly followed by `if m == 1: A else: B`: in the arm that ends by giving
+        `m` a constant the second test is decided (A), the other arm gets the whole second `if` (jump threading on a
+        constant).  This is what a helper such as `next_index()` - wrap to 1 or step - leaves in front of the code
+        that reacts to the wrap."""
+        changed = False
+        for blk in list(self._blocks(fn)):
+            for i in range(len(blk) - 1):
+                a, b = blk[i], blk[i + 1]
+                if not (isinstance(a, ast.If) and isinstance(b, ast.If) and a.orelse):
+                    continue
+                t_ = b.test
+                if not (isinstance(t_, ast.Compare) and len(t_.ops) == 1 and isinstance(t_.ops[0], (ast.Eq, ast.NotEq))
+                        and isinstance(t_.left, ast.Name) and isinstance(t_.comparators[0], ast.Constant)
+                        and isinstance(t_.comparators[0].value, (int, str)) and not isinstance(t_.comparators[0].value, bool)):
+                    continue
+                m, d = t_.left.id, t_.comparators[0].value
+                arms = [a.body, a.orelse]
+                if any(not arm or not (isinstance(arm[-1], ast.Assign) and len(arm[-1].targets) == 1
+                                       and isinstance(arm[-1].targets[0], ast.Name) and arm[-1].targets[0].id == m)
+                       for arm in arms):
+                    continue
+                consts = [isinstance(arm[-1].value, ast.Constant) and type(arm[-1].value.value) is type(d) for arm in arms]
+                if not any(consts) or all(consts) and False:
+                    continue
+                if sum(1 for s_ in b.body + b.orelse for _ in ast.walk(s_) if isinstance(_, ast.stmt)) > 40:
+                    continue
+                for arm, is_c in zip(arms, consts):
+                    if is_c:
+                        truth = (arm[-1].value.value == d) == isinstance(t_.ops[0], ast.Eq)
+                        arm.extend(clone(b.body if truth else b.orelse))
+                    else:
+                        arm.append(ast.copy_location(ast.If(test=clone(b.test), body=clone(b.body), orelse=clone(b.orelse)), b))
                 del blk[i + 1]
                 changed = True
                 break
@@ -2526,12 +2745,43 @@ class Normaliser:
                 break
         return changed
 
-    def _inline_module_value_constants(self, fn: ast.AST, mod) -> bool:
+    def _inline_module_value_constants(self, fn: ast.AST, mod, cls=None) -> bool:
         """`ONE_DAY` / `UNIX_EPOCH`: a module-level name spelt as a constant, bound once to a date / time value
         object built from constants (`datetime.timedelta(days=1)`, `datetime.datetime(1970, 1, 1, tzinfo=UTC())`)
-        is written out where the function reads it"""
+        is written out where the function reads it; so is a class-level one read as self.NAME / cls.NAME /
+        Class.NAME"""
         if mod is None:
             return False
+        changed_cls = False
+        if cls is not None:
+            cconsts: dict[str, ast.AST] = {}
+            ccounts: dict[str, int] = {}
+            for st in cls.body:
+                tg = st.targets[0] if isinstance(st, ast.Assign) and len(st.targets) == 1 else (
+                    st.target if isinstance(st, ast.AnnAssign) and st.value is not None else None)
+                if isinstance(tg, ast.Name) and tg.id.isupper():
+                    ccounts[tg.id] = ccounts.get(tg.id, 0) + 1
+                    v = st.value
+                    if isinstance(v, ast.Call) and ast.unparse(v.func) in (
+                            'datetime.timedelta', 'timedelta', 'datetime.datetime', 'datetime.time', 'datetime.date') \
+                            and all(isinstance(x, ast.Constant) for x in v.args) \
+                            and all(k.arg is not None and isinstance(k.value, ast.Constant) for k in v.keywords):
+                        cconsts[tg.id] = v
+            cconsts = {k: v for k, v in cconsts.items() if ccounts.get(k) == 1}
+            stored = {x.attr for x in ast.walk(fn) if isinstance(x, ast.Attribute) and isinstance(x.ctx, (ast.Store, ast.Del))}
+            if cconsts:
+                owners = ('self', 'cls', 'clz', cls.name)
+
+                class TA(ast.NodeTransformer):
+                    def visit_Attribute(self, node):
+                        nonlocal changed_cls
+                        self.generic_visit(node)
+                        if isinstance(node.ctx, ast.Load) and isinstance(node.value, ast.Name) and node.value.id in owners \
+                                and node.attr in cconsts and node.attr not in stored:
+                            changed_cls = True
+                            return ast.copy_location(clone(cconsts[node.attr]), node)
+                        return node
+                fn.body = [TA().visit(st) for st in fn.body]
         consts: dict[str, ast.AST] = {}
         counts: dict[str, int] = {}
         for st in getattr(mod, 'body', []):
@@ -2549,7 +2799,7 @@ class Normaliser:
                         consts[tg.id] = v
         consts = {k: v for k, v in consts.items() if counts.get(k) == 1}
         if not consts:
-            return False
+            return changed_cls
         local = {x.id for x in ast.walk(fn) if isinstance(x, ast.Name) and isinstance(x.ctx, (ast.Store, ast.Del))}
         local |= {a.arg for a in ast.walk(fn) if isinstance(a, ast.arg)}
         changed = False
@@ -2563,7 +2813,7 @@ class Normaliser:
                 return node
         for field in ('body',):
             setattr(fn, field, [T().visit(st) for st in getattr(fn, field)])
-        return changed
+        return changed or changed_cls
 
     def _fold_constant_ifs(self, fn: ast.AST) -> bool:
         """`if False: A else: B` (a defaulted flag parameter after inlining) is B"""
@@ -3670,10 +3920,40 @@ def propagate_attr_aliases(fn: ast.AST) -> ast.AST:
         if not d or not isinstance(val, ast.Attribute):
             continue
         if any(d == s_ or d.startswith(s_ + '.') for s_ in stores):
-            continue
+            # the chain is stored to: still the same value while every read of the local comes before the first
+            # such store (straight-line code only: no loop could bring a read after a store)
+            if any(isinstance(x, (ast.For, ast.While, ast.AsyncFor)) for x in ast.walk(new)):
+                continue
+            pos: dict[int, int] = {}
+            counter = [0]
+
+            def number(stmts):
+                for st_ in stmts:
+                    counter[0] += 1
+                    nested = []
+                    for f_ in ('body', 'orelse', 'finalbody'):
+                        b_ = getattr(st_, f_, None)
+                        if isinstance(b_, list) and b_ and isinstance(b_[0], ast.stmt):
+                            nested.append(b_)
+                    for h_ in getattr(st_, 'handlers', []) or []:
+                        nested.append(h_.body)
+                    inner = {id(x) for b_ in nested for y in b_ for x in ast.walk(y)}
+                    for x in ast.walk(st_):
+                        if id(x) not in inner:
+                            pos[id(x)] = counter[0]
+                    for b_ in nested:
+                        number(b_)
+            number(new.body)
+            first_store = min((pos.get(id(x), 10 ** 9) for x in ast.walk(new) if isinstance(x, ast.Attribute)
+                               and isinstance(x.ctx, ast.Store) and (dotted(x) or '') and
+                               (d == dotted(x) or d.startswith((dotted(x) or '') + '.'))), default=10 ** 9)
+            reads = [pos.get(id(x), 10 ** 9) for x in ast.walk(new) if isinstance(x, ast.Name) and x.id == name
+                     and isinstance(x.ctx, ast.Load)]
+            if not reads or max(reads) >= first_store:
+                continue
         root = d.split('.')[0]
-        if root in defs and root not in params:
-            continue
+        if root in defs and root not in params and not (len(defs[root]) == 1 and defs[root][0] is not None):
+            continue            # (a root that is itself a local bound once is as stable as a parameter)
         amap[name] = val
     if not amap:
         return new
@@ -3713,11 +3993,20 @@ def propagate_single_use(fn: ast.AST) -> ast.AST:
                             and isinstance(b, (ast.Expr, ast.Assign, ast.AugAssign, ast.Return, ast.AnnAssign))):
                         continue
                     t = a.targets[0].id
-                    if t in params or stores.get(t) != 1 or loads.get(t) != 1 or not is_free(a.value):
+                    if t in params or stores.get(t) != 1 or loads.get(t) != 1:
                         continue
                     hits = [x for x in ast.walk(b) if isinstance(x, ast.Name) and x.id == t and isinstance(x.ctx, ast.Load)]
                     if len(hits) != 1:
                         continue
+                    if not is_free(a.value):
+                        # a temporary of the normal form (`_h1 = <call>; acc.append(_h1)`): put back where it is the
+                        # only thing the next statement evaluates besides plain names
+                        import re as _re
+                        calls_b = [x for x in ast.walk(b) if isinstance(x, (ast.Call, ast.Await, ast.Yield, ast.YieldFrom,
+                                                                              ast.NamedExpr, ast.Subscript, ast.BinOp))]
+                        if not (_re.fullmatch(r'_h\d+', t) and len(calls_b) <= 1
+                                and all(isinstance(c_, ast.Call) and any(a_ is hits[0] for a_ in c_.args) for c_ in calls_b)):
+                            continue
                     # names the expression reads must not be rebound by the reading statement before the read
                     # (an augmented assignment reads its target first: harmless for a call-free expression)
 
